@@ -100,3 +100,17 @@ CHECKS["C10"] = {
   "text": "Every table in the bound is built through every constructor (sequences, k-mers, selections, positions, merged tables, pickle, deepcopy), its content checked through every lookup view, and match / match_table / match_kmer_selection compared with the naive triple set (masks applied per informative position, spaced models included); minimizer / syncmer / mincode selectors compared with their definitions. ~9.6 M cases quick, ~48 M thorough; malformed calls run in forked children.",
   "note": "Trusts the nested-loop model in props/c10.py; positions / reference ids outside uint32 and from_tables with mixed table classes are recorded known findings (repairs need new control flow in compiled code).",
 }
+CHECKS["C08"] = {
+  "engine": "E2-input-enumerator",
+  "technique": "complete enumeration of all sequence pairs up to length 4/3 (thorough 5/4) over 2-3 letter alphabets x matrix families x 9 gap penalties x {global, semi-global, local} x max_number, against a brute-force enumerator of ALL alignments under the documented scoring model, cross-checked by an independent reference DP",
+  "ref": "DESIGN.md section 4 C08; notes/C08.md",
+  "text": "For every call in the bound the reported score must equal the maximum over all alignments enumerated by brute force; every returned alignment must be a valid trace of the inputs whose model score and align.score() equal the reported score; results pairwise distinct and at most max_number; with max_number=1000 the returned set must equal the complete set of optimal traces (strengthening, own signature). All 16 code-width combinations (uint8..uint64) and rectangular matrices included; unaddressable matrix entries are poisoned so that a wrong lookup changes the optimum. ~1.3 M calls quick, ~10.8 M thorough.",
+  "note": "Trusts mc/models/align.py (scoring model written from the documentation; enumerator and DP agree on all 181,629 keys); matrix entries near the int32 limits and sequences longer than the bounds are outside.",
+}
+CHECKS["C09"] = {
+  "engine": "E2-input-enumerator",
+  "technique": "complete enumeration of sequence pairs up to length 3-4 x matrix families x penalties x every band (incl. bands partly outside the table, both diagonal orders) / every seed x thresholds x directions, against rescoring of the completed trace and the brute-force optimum of the unrestricted (or seed-constrained) problem from mc/models/align.py",
+  "ref": "DESIGN.md section 4 C09; notes/C09.md",
+  "text": "Every banded, seed-extended gapped and ungapped call in the bound is checked for: trace validity, reported score == score recomputed from the returned trace (semi-global traces completed by the unaligned ends of both sequences), score <= brute-force optimum, equality with the optimum when the band covers the table / the threshold cannot bind, diagonals inside the band, seed contained and direction respected, score_only == score of the full call. ~4.5 M evaluations quick, ~49 M thorough.",
+  "note": "Trusts mc/models/align.py; exact X-drop behaviour at thresholds that do bind is not asserted (the statement does not give it); duplicate traces in banded result lists are not reported.",
+}
